@@ -175,6 +175,8 @@ pub struct Model<'a> {
     next_task: usize,
     cur_task: usize,
     calc: &'a mut dyn Calc,
+    /// nesting depth of self-describing descriptors (see case::SELF_DESC)
+    desc_depth: std::cell::Cell<u32>,
     /// number of handler invocations made by each simulated task (reach)
     pub unmodelled: Option<String>,
 }
@@ -201,6 +203,7 @@ pub fn run_model(case: &Case, calc: &mut dyn Calc) -> ModelOut {
         desc: BTreeMap::new(),
         slots: case.slots.iter().map(mctx_of).collect(),
         shared: case.shared.clone(),
+        desc_depth: std::cell::Cell::new(0),
         log: vec![],
         hcount: vec![],
         next_task: 1,
@@ -584,6 +587,14 @@ impl<'a> Model<'a> {
     fn mark(&self, id: usize, parts: String) -> String {
         if id >= crate::case::EMPTY_DESC {
             String::new()
+        } else if id >= crate::case::SELF_DESC {
+            if self.desc_depth.get() > 0 {
+                return format!("<{}|{}|~>", id, parts);
+            }
+            self.desc_depth.set(1);
+            let inner = self.describe(&crate::case::self_desc_program());
+            self.desc_depth.set(0);
+            format!("<{}|{}|{}>", id, parts, inner)
         } else if id >= crate::case::REENTRANT_DESC {
             let inner = self.describe(&rf("inner_q"));
             format!("<{}|{}|{}>", id, parts, inner)
